@@ -1,4 +1,4 @@
-From BBS Require Import Common.Sx Common.ListX Auth.Auth Auth.AuthProofs Run.R18.
+From BBS Require Import Common.Sx Common.ListX Routing.Names Routing.Trie Auth.Auth Auth.AuthProofs Run.R18.
 
 Lemma sx_bool_of_bool b : sx_bool (of_bool b) = b.
 Proof. destruct b; reflexivity. Qed.
@@ -6,29 +6,43 @@ Proof. destruct b; reflexivity. Qed.
 Theorem R18_monitor_silent : forall inp, mon18 inp (run18 inp) = [].
 Proof.
   intros inp. unfold mon18, run18.
+  set (nm := dec_nm (sx_nth inp 4)).
   set (g := dec_tree (sx_nth inp 0)). set (p := dec_tree (sx_nth inp 1)).
   set (f := dec_tree (sx_nth inp 2)). set (o := dec_op (sx_nth inp 3)).
-  set (r := authorizing g p f o).
-  unfold enc_res. unfold sx_nth at 1 2 3. cbn [sx_list nth].
+  set (r := authorizing nm g p f o).
+  unfold enc_res. unfold sx_nth. cbn [sx_list nth].
   rewrite sx_bool_of_bool. cbn [sx_Z].
-  pose proof (backend_only_if_all_allowed g p f o) as Hfw.
-  pose proof (rejected_gets_authorizer_error g p f o) as Hrej.
-  fold r in Hfw, Hrej.
+  pose proof (backend_only_if_all_allowed nm g p f o) as Hfw.
+  pose proof (rejected_gets_authorizer_error nm g p f o) as Hrej.
+  pose proof (static_backend_iff_covered nm g p f o) as Hst.
+  pose proof (static_rejection_is_permission_denied nm g p f o) as Hpd.
+  fold r in Hfw, Hrej, Hst, Hpd.
+  (* clauses 4 and 5 *)
+  assert (H45 : (if static_only (tree_of g p f o)
+                 then (if forwarded r && negb (forallb (fun n => covered (all_prefixes (tree_of g p f o)) (nm n)) (names_of o)) then [4] else []) ++
+                      (if negb (forwarded r) && (forallb (fun n => covered (all_prefixes (tree_of g p f o)) (nm n)) (names_of o)
+                                                 || negb (Z.eqb (if forwarded r then 0 else code r) 7)) then [5] else [])
+                 else []) = []).
+  { destruct (static_only (tree_of g p f o)) eqn:Hs; [|reflexivity].
+    rewrite <- (Hst eq_refl).
+    destruct (forwarded r) eqn:Hf; cbn [andb negb orb app]; [reflexivity|].
+    rewrite (Hpd eq_refl eq_refl). reflexivity. }
+  rewrite H45. rewrite !app_nil_r. clear H45 Hst Hpd.
   destruct (forwarded r) eqn:Hf.
-  - assert (Hall : forallb (fun n => allowed (sem (tree_of g p f o) n)) (names_of o) = true).
+  - assert (Hall : forallb (fun n => allowed (sem nm (tree_of g p f o) n)) (names_of o) = true).
     { apply forallb_forall. intros n Hn. rewrite (Hfw eq_refl n Hn). reflexivity. }
     rewrite Hall. cbn [andb negb app].
     destruct o as [n|pp c|n|ns]; try reflexivity.
-    pose proof (put_buffer_exactly_once g p f n) as [Hb _]. cbn zeta in Hb.
+    pose proof (put_buffer_exactly_once nm g p f n) as [Hb _]. cbn zeta in Hb.
     fold r in Hb. unfold r in Hf. rewrite (Hb Hf). reflexivity.
   - cbn [andb negb app].
     destruct (Hrej eq_refl) as (n & Hin & Hc & Hna).
-    assert (Hex : existsb (fun n0 => negb (allowed (sem (tree_of g p f o) n0))
-                                     && Z.eqb (sem (tree_of g p f o) n0) (code r)) (names_of o) = true).
+    assert (Hex : existsb (fun n0 => negb (allowed (sem nm (tree_of g p f o) n0))
+                                     && Z.eqb (sem nm (tree_of g p f o) n0) (code r)) (names_of o) = true).
     { apply existsb_exists. exists n. split; [exact Hin|].
       rewrite Hna, Hc, Z.eqb_refl. reflexivity. }
     rewrite Hex. cbn [negb app].
     destruct o as [n0|pp c|n0|ns]; try reflexivity.
-    pose proof (put_buffer_exactly_once g p f n0) as [_ Hb]. cbn zeta in Hb.
+    pose proof (put_buffer_exactly_once nm g p f n0) as [_ Hb]. cbn zeta in Hb.
     fold r in Hb. unfold r in Hf. rewrite (Hb Hf). reflexivity.
 Qed.
